@@ -63,7 +63,8 @@ Fixpoint insert_at {A} (i : nat) (x : A) (l : list A) : list A :=
 Inductive msgkind : Type :=
 | MOp                   (* any reflog message that is not "undo N" / "redo N" *)
 | MUndo (n : Z)
-| MRedo (n : Z).
+| MRedo (n : Z)
+| MGroup.               (* a "parent grouping" commit of StackState::commit *)
 
 Record sstate : Type := mkState {
   s_prev : option oid;
@@ -78,6 +79,7 @@ Record commit : Type := mkCommit {
   c_parents : list oid;
   c_tree : tree;
   c_meta : N;                        (* author + message identity of a patch commit *)
+  c_subj : str;                      (* message text (used to derive patch names) *)
   c_state : option sstate;           (* Some for stack state commits *)
   c_msg : msgkind                    (* state commits: classification of the message *)
 }.
@@ -88,8 +90,11 @@ Definition get (objs : store) (o : oid) : option commit := nth_error objs o.
 
 Definition put (objs : store) (c : commit) : store * oid := (objs ++ [c], length objs).
 
-Definition plain (parents : list oid) (t : tree) (meta : N) : commit :=
-  mkCommit parents t meta None MOp.
+Definition plain (parents : list oid) (t : tree) (meta : N) (subj : str) : commit :=
+  mkCommit parents t meta subj None MOp.
+
+Definition subj_of (objs : store) (o : oid) : str :=
+  match get objs o with Some c => c_subj c | None => [] end.
 
 Definition tree_of (objs : store) (o : oid) : tree :=
   match get objs o with Some c => c_tree c | None => [] end.
@@ -201,6 +206,32 @@ Fixpoint merge3 (b o t : tree) : option tree :=
       end
   | _, _, _ => None
   end.
+
+(* `git apply --cached --3way` of diff(b -> t) onto index content o.  Same as the cell-wise
+   merge except for whole-file cells (the one-cell files after the multi-region files): a
+   creation patch needs the file to be absent and a deletion patch needs it to be present
+   unchanged - "already created" / "already deleted" make git apply fail although a real
+   merge (merge-recursive, used by the work-tree fallback) is clean. *)
+Definition apply_cell (single : bool) (b o t : N) : option N :=
+  if N.eqb t b then Some o
+  else if single && (N.eqb b 0 || N.eqb t 0) then (if N.eqb o b then Some t else None)
+  else if single && N.eqb o 0 then None
+  else merge_cell b o t.
+
+Definition multi_cells : nat := 9.
+
+Fixpoint apply3way_from (i : nat) (b o t : tree) : option tree :=
+  match b, o, t with
+  | [], [], [] => Some []
+  | x :: b', y :: o', z :: t' =>
+      match apply_cell (Nat.leb multi_cells i) x y z, apply3way_from (S i) b' o' t' with
+      | Some c, Some r => Some (c :: r)
+      | _, _ => None
+      end
+  | _, _, _ => None
+  end.
+
+Definition apply3way (b o t : tree) : option tree := apply3way_from 0 b o t.
 
 (* ---------------------------------------------------------------- transactions *)
 
@@ -345,6 +376,41 @@ Definition delete_patches (f : name -> bool) (t : txn) : txn * list name :=
   (set_updated (set_lists t keep unapplied' hidden') (mark_deleted (t_updated t) deleted),
    incidental).
 
+(* ---- the work tree: files and git's two-way merge (read-tree -m -u old new) ---- *)
+
+(* cell layout of the scenario corpus: three files of three regions, then one-cell files *)
+Definition file_sizes : list nat := [3; 3; 3]%nat.
+
+Fixpoint chunks (sizes : list nat) (t : tree) : list tree :=
+  match sizes with
+  | [] => map (fun c => [c]) t
+  | k :: sizes' => match t with
+                   | [] => []
+                   | _ => firstn k t :: chunks sizes' (skipn k t)
+                   end
+  end.
+
+(* per file, with index = work tree = I: clean file -> new content; dirty file is kept when
+   the file does not change between the two trees (or already has the new content);
+   otherwise read-tree refuses and nothing is touched *)
+Fixpoint twoway_files (hs ms is_ : list tree) : option tree :=
+  match hs, ms, is_ with
+  | [], [], [] => Some []
+  | h :: hs', m :: ms', i :: is' =>
+      match twoway_files hs' ms' is' with
+      | None => None
+      | Some r =>
+          if tree_eqb i h then Some (m ++ r)
+          else if tree_eqb h m then Some (i ++ r)
+          else if tree_eqb i m then Some (i ++ r)
+          else None
+      end
+  | _, _, _ => None
+  end.
+
+Definition twoway (cur target wt : tree) : option tree :=
+  twoway_files (chunks file_sizes cur) (chunks file_sizes target) (chunks file_sizes wt).
+
 (* ---- push_patch ---- *)
 
 Definition move_to_applied (t : txn) (n : name) : txn :=
@@ -360,7 +426,7 @@ Inductive pstatus : Type := PSNormal | PSMerged | PSConflict.
 (* new commit for a pushed patch: same author/message (meta), given tree, one parent *)
 Definition recommit (t : txn) (old : oid) (new_tree : tree) (parent : oid) : txn * oid :=
   let meta := match get (t_objs t) old with Some c => c_meta c | None => 0%N end in
-  let '(objs', o) := put (t_objs t) (plain [parent] new_tree meta) in
+  let '(objs', o) := put (t_objs t) (plain [parent] new_tree meta (subj_of (t_objs t) old)) in
   (set_objs t objs', o).
 
 Definition push_patch (n : name) (already_merged : bool) (t : txn) : tres :=
@@ -387,11 +453,13 @@ Definition push_patch (n : name) (already_merged : bool) (t : txn) : tres :=
                 | Some c => if tree_eqb c ours then t else set_tmp t (Some ours) ours
                 | None => set_tmp t (Some ours) ours
                 end in
-              match merge3 otree (t_tmp_content t1) theirs with
+              match apply3way otree (t_tmp_content t1) theirs with
               | Some merged =>
-                  (* apply succeeded; the cached id is left as it was *)
-                  inl (set_tmp t1 (t_tmp_id t1) merged, merged, PSNormal)
+                  (* apply + write-tree succeeded: the temp index now holds [merged] *)
+                  inl (set_tmp t1 (Some merged) merged, merged, PSNormal)
               | None =>
+                  (* apply failed: the temp index content is unknown, the cached id is dropped *)
+                  let t1 := set_tmp t1 None (t_tmp_content t1) in
                   if negb (o_use_iw (t_opts t1)) then inr (THalt t1 HNoConflict)
                   else if negb (o_allow_push_conflicts (t_opts t1)) then inr (THalt t1 HNoConflict)
                   else
@@ -399,9 +467,18 @@ Definition push_patch (n : name) (already_merged : bool) (t : txn) : tres :=
                        model's work tree is clean so this succeeds unless unmerged *)
                     if t_wt_unmerged t1 then inr (THalt t1 HNoConflict)
                     else
-                      match merge3 otree ours theirs with
-                      | Some merged => inl (set_wt t1 merged merged false, merged, PSNormal)
-                      | None => inl (set_wt t1 ours ours true, ours, PSConflict)
+                      match twoway (t_cur_tree t1) ours (t_wt t1) with
+                      | None => inr (THalt t1 HNoConflict)          (* index/worktree dirty *)
+                      | Some wt1 =>
+                          let t2 := set_wt t1 ours wt1 false in
+                          match merge3 otree ours theirs with
+                          | Some merged =>
+                              match twoway ours merged wt1 with
+                              | Some wt2 => inl (set_wt t2 merged wt2 false, merged, PSNormal)
+                              | None => inr (THalt t2 HNoConflict)  (* merge-recursive refuses *)
+                              end
+                          | None => inl (set_wt t2 ours ours true, ours, PSConflict)
+                          end
                       end
               end
           in
@@ -426,6 +503,19 @@ Definition push_patch (n : name) (already_merged : bool) (t : txn) : tres :=
   | _, _ => TPanic                                      (* get_patch on a missing patch *)
   end.
 
+(* plain `git apply --cached` (no --3way) of the diff from -> to: succeeds iff every
+   touched cell currently holds the `from` value *)
+Fixpoint apply_exact (from to content : tree) : option tree :=
+  match from, to, content with
+  | [], [], [] => Some []
+  | f :: from', t :: to', c :: content' =>
+      match apply_exact from' to' content' with
+      | Some r => if N.eqb f t then Some (c :: r) else if N.eqb c f then Some (t :: r) else None
+      | None => None
+      end
+  | _, _, _ => None
+  end.
+
 (* check_merged: reverse-apply each patch (last first) onto the head tree in the temp index *)
 Fixpoint check_merged_loop (objs : store) (content : tree) (id : option tree)
          (patches_rev : list (name * oid)) : list name * tree * option tree :=
@@ -440,10 +530,8 @@ Fixpoint check_merged_loop (objs : store) (content : tree) (id : option tree)
           if (Nat.eqb (length (parents_of objs pc)) 1) && tree_eqb partree ptree then
             check_merged_loop objs content id rest        (* is_no_change: skip *)
           else
-            match merge3 ptree content partree with
+            match apply_exact ptree partree content with
             | Some c' =>
-                (* plain `git apply --cached` (no --3way): succeeds iff the patch's change
-                   is present: every touched cell currently has the patch's value *)
                 let '(m, c'', id') := check_merged_loop objs c' None rest in
                 (n :: m, c'', id')
             | None => check_merged_loop objs content id rest
@@ -720,7 +808,7 @@ Fixpoint group_parents (fuel : nat) (maxp : nat) (objs : store) (state_tree : tr
       if Nat.ltb maxp (length ps) then
         let keep := firstn (length ps - maxp) ps in
         let grp := skipn (length ps - maxp) ps in
-        let '(objs', g) := put objs (plain grp state_tree 0%N) in
+        let '(objs', g) := put objs (mkCommit grp state_tree 0%N [] None MGroup) in
         group_parents fuel' maxp objs' state_tree (keep ++ [g])
       else (objs, ps)
   end.
@@ -750,10 +838,10 @@ Definition state_commit (objs : store) (s : sstate) (msg : msgkind) : option (st
       match simplified_parents with
       | None => None
       | Some sp =>
-          let '(objs1, simp) := put objs (mkCommit sp [] 0%N (Some s) msg) in
+          let '(objs1, simp) := put objs (mkCommit sp [] 0%N [] (Some s) msg) in
           let ps := parent_set s prev in
           let '(objs2, grouped) := group_parents (length ps) max_parents_nat objs1 [] ps in
-          let '(objs3, so) := put objs2 (mkCommit (simp :: grouped) [] 0%N (Some s) msg) in
+          let '(objs3, so) := put objs2 (mkCommit (simp :: grouped) [] 0%N [] (Some s) msg) in
           Some (objs3, so)
       end
   end.
@@ -846,8 +934,13 @@ Definition checkout (o : topts) (stack_top trans_top : option name) (wt : tree) 
     end
   else if o_discard_changes o then Some (target, false)
   else
-    (* update-index --refresh; read-tree -m -u cur target: refuses on an unmerged index *)
-    if unmerged then None else Some (target, false).
+    (* update-index --refresh; read-tree -m -u cur target: refuses on an unmerged index and
+       when a locally modified file would be overwritten *)
+    if unmerged then None
+    else match twoway cur target wt with
+         | Some wt' => Some (wt', false)
+         | None => None
+         end.
 
 Inductive eres : Type :=
 | EDone (w : world) (x : exitc).
@@ -893,16 +986,27 @@ Definition execute (w : world) (r : tres) (msg : msgkind) : world * exitc :=
                     if negb (o_allow_bad_head o)
                        && negb (match s_applied st1 with [] => true | _ => false end)
                        && negb (Nat.eqb (s_head st1) (w_branch w1))
-                    then inr X2
+                    then inr (w_wt w1, w_unmerged w1, X2)
                     else
                       match checkout o stack_top trans_top (w_wt w1) (w_unmerged w1)
                                      (t_cur_tree t) trans_head_tree with
                       | Some (wt', um') => inl (wt', um')
-                      | None => inr X3                   (* CheckoutConflicts / conflicts *)
+                      | None =>
+                          (* rollback(current_tree_id, e): check out the pre-transaction
+                             tree again, then fail with a plain command error *)
+                          let rollback_tree := tree_of (w_objs w1) (w_branch w1) in
+                          match checkout o stack_top trans_top (w_wt w1) (w_unmerged w1)
+                                         (t_cur_tree t) rollback_tree with
+                          | Some (wt', um') => inr (wt', um', X2)
+                          | None =>
+                              inr (w_wt w1, w_unmerged w1,
+                                   if tree_eqb (t_cur_tree t) rollback_tree then X2 else X3)
+                          end
                       end
                   else inl (w_wt w1, w_unmerged w1) in
                 match co with
-                | inr x => (w1, x)
+                | inr (wt', um', x) =>
+                    (mkWorld (w_objs w1) (w_branch w1) (w_stack w1) (w_prefs w1) wt' um' (w_base w1), x)
                 | inl (wt', um') =>
                     match w_stack w1 with
                     | None => (w1, X2)                   (* find_reference fails *)
